@@ -2779,6 +2779,10 @@ func (ir *iteratorRecord) iterate(step func(Value)) {
 			step(value)
 		})
 		if ret != nil {
+			if asUncatchableException(ret) != nil {
+				// unwind without calling the iterator's return()
+				panic(ret)
+			}
 			_ = tryFunc(func() {
 				ir.returnIter()
 			})
